@@ -112,6 +112,9 @@ type StructOptions struct {
 
 func (c StructOptions) Data(obj interface{}) Map {
 	var v = reflect.ValueOf(obj)
+	for v.Kind() == reflect.Ptr {
+		v = v.Elem() // a pointer to a struct is the struct
+	}
 	var valType = v.Type()
 	var n = valType.NumField()
 	var m = make(Map, n)
